@@ -244,6 +244,8 @@ var c17Variants = []string{
 	"",
 	// the text above without its last transaction: the tokens are a proper prefix
 	"2001-01-01 shop  ; t:v\n    expenses:food  $5 @ 2 EUR\n    assets:cash\n",
+	// the first text with its last posting twice: the added tokens end like the old array ends
+	"2001-01-01 shop\n    expenses:food  $5\n    assets:cash\n    assets:cash\n",
 }
 
 type c17Op struct {
